@@ -284,6 +284,10 @@ impl Host<'_> {
                         v.extend(format!("{:02X}", self.rng.byte()).into_bytes());
                     }
                     v.push(b';');
+                } else if self.rng.chance(1, 4) {
+                    // an invocation inside the body: the only way one macro can call another (or itself)
+                    let inv = format!("\x1b[{}*z", self.rng.below(4));
+                    v.extend(inv.bytes().flat_map(|b| format!("{b:02X}").into_bytes()));
                 } else {
                     v.extend(format!("{:02x}", self.rng.byte()).into_bytes());
                 }
@@ -862,31 +866,41 @@ pub fn gen_c03(rng: &mut Rng, _run: u64, _thorough: bool) -> Trace {
                 target = format!("csi:{pr}{im}{f}");
             }
             6 => {
-                // self- and mutually-recursive macros
+                // self- and mutually-recursive macros. A macro body can only carry an invocation in the
+                // hex encoding (in a text body ESC [ n * z is executed while the macro is being defined).
+                let hx = |s: &str| s.bytes().map(|b| format!("{b:02X}")).collect::<String>();
                 match rng.below(3) {
-                    0 => bytes.extend(b"\x1bP1;0;0!z\x1b[1*z\x1b\\\x1b[1*z"),
-                    1 => bytes.extend(b"\x1bP1;0;0!z\x1b[2*z\x1b\\\x1bP2;0;0!z\x1b[1*z\x1b\\\x1b[1*z"),
-                    _ => bytes.extend(b"\x1bP1;0;0!zA\x1b[1*z\x1b[1*z\x1b\\\x1b[1*z"),
+                    0 => bytes.extend(format!("\x1bP1;0;1!z{}\x1b\\\x1b[1*z", hx("\x1b[1*z")).into_bytes()),
+                    1 => bytes.extend(format!("\x1bP1;0;1!z{}\x1b\\\x1bP2;0;1!z{}\x1b\\\x1b[1*z", hx("\x1b[2*z"), hx("\x1b[1*z")).into_bytes()),
+                    _ => bytes.extend(format!("\x1bP1;0;1!z{}\x1b\\\x1b[1*z", hx("A\x1b[1*z\x1b[1*z")).into_bytes()),
                 }
                 target = "macro:recursive".into();
             }
             7 => {
                 // macros that invoke macros: multiplicative expansion without recursion
-                let levels = 2 + rng.usize(3);
+                let hx = |s: &str| s.bytes().map(|b| format!("{b:02X}")).collect::<String>();
+                let levels = 2 + rng.usize(4);
                 bytes.extend(b"\x1bP0;0;0!zAAAAAAAA\x1b\\");
                 for l in 1..=levels {
-                    bytes.extend(format!("\x1bP{l};0;0!z").into_bytes());
+                    let mut body = String::new();
                     for _ in 0..4 {
-                        bytes.extend(format!("\x1b[{}*z", l - 1).into_bytes());
+                        body.push_str(&format!("\x1b[{}*z", l - 1));
                     }
-                    bytes.extend(b"\x1b\\");
+                    bytes.extend(format!("\x1bP{l};0;1!z{}\x1b\\", hx(&body)).into_bytes());
                 }
                 bytes.extend(format!("\x1b[{levels}*z").into_bytes());
                 target = "macro:chain".into();
             }
             8 => {
+                // hex macro repeat groups: closed by ';', left open at the end of the definition, several in a row
                 let rep = mag(rng, size);
-                bytes.extend(format!("\x1bP1;0;1!z!{rep};4142;\x1b\\\x1b[1*z").into_bytes());
+                let def = match rng.below(4) {
+                    0 => format!("!{rep};4142;"),
+                    1 => format!("!{rep};41"),
+                    2 => format!("4869!3;2D;!{rep};4142"),
+                    _ => format!("!{rep};41;!{};42;43", mag(rng, size)),
+                };
+                bytes.extend(format!("\x1bP1;0;1!z{def}\x1b\\\x1b[1*z").into_bytes());
                 target = "dcs:hexrepeat".into();
             }
             9 => {
